@@ -47,8 +47,10 @@ PROP = {'drive': ['T2'], 'harness_files': ['area_t2.go'], 'modules': ['SfntV.Pro
              'outside the property: it quantifies over glyph descriptions a charstring can represent); run on the real '
              'code at the excluded points: lineto-first glyph -> decoder rejects ("lineTo before moveTo"); mask with a '
              'byte too many -> charstring rejected (badop) by spec and Go decoder; mask with a byte missing -> the mask '
-             'takes the next byte of the charstring as data, spec and Go decoder then read the same different program '
-             '(reject, or a different glyph); mask without stems -> both reject (early); '
+             'takes the next byte of the charstring as data; on the resulting bytes spec and Go decoder read the same '
+             'different program and agree, up to the operand-count leniency of the Go decoder that belongs to C05 '
+             '(quirk shortPathOpIgnored: "vlineto" left without operands draws nothing in Go, underflow in the spec: '
+             't2.spec code=8b95128b048c06138c070e); mask without stems -> both reject (early); '
              'C04_glyph_sound_unguarded_fails is the Lean witness that GlyphWF is necessary. Steps within +-32767 '
              '(stepsSmall, hStemsSmall/vStemsSmall, Small: finding C04-bigstep; C04_stems_small gives a '
              'chunk-independent sufficient condition); even stem lists (encoder checks).',
